@@ -836,7 +836,46 @@ def extract_h1_reuse(repo, parents):
     return out
 
 
-SECTIONS = [extract_models, extract_pool, extract_timeouts, extract_schemes, extract_exception_maps, extract_h2, extract_unasync, extract_h1_reuse]
+# ---------------------------------------------------------------------------------------------
+# C08: every mutation of the pool's lists happens under the thread lock
+# ---------------------------------------------------------------------------------------------
+
+def extract_pool_locking(repo, parents):
+    tree = _parse(repo, "httpcore/_async/connection_pool.py")
+    rows = []
+
+    def is_lock_with(node):
+        return isinstance(node, ast.With) and any(ast.unparse(i.context_expr) in ("self._optional_thread_lock", "self._pool._optional_thread_lock")
+                                                  for i in node.items)
+
+    def visit(node, fname, locked):
+        for child in ast.iter_child_nodes(node):
+            l = locked or is_lock_with(child)
+            if isinstance(child, (ast.Expr, ast.Assign, ast.AugAssign)):
+                txt = ast.unparse(child)
+                mutates = any(frag in txt for frag in ("._connections.append(", "._connections.remove(", "._requests.append(", "._requests.remove(",
+                                                       "._assign_requests_to_connections()")) or \
+                    (isinstance(child, ast.Assign) and ast.unparse(child.targets[0]) in ("self._connections", "self._requests"))
+                if mutates:
+                    rows.append((fname, txt.replace('"', "'")[:80], l))
+            visit(child, fname, l)
+
+    for clsname, f in _func_defs(tree):
+        qual = (clsname + "." if clsname else "") + f.name
+        if f.name == "__init__":
+            continue
+        # the pass itself runs with the lock held by its callers (each call site is a row of its own)
+        visit(f, qual, f.name == "_assign_requests_to_connections")
+    if not rows:
+        raise ExtractError("connection_pool.py: no mutation of the pool's lists found")
+    out = ["/-- every statement of `connection_pool.py` that mutates `_connections` / `_requests` or runs the assignment pass:",
+           "(function, statement, is it lexically inside `with self._optional_thread_lock:` - or inside the pass, whose callers hold it) -/",
+           "def poolMutations : List (String × String × Bool) := " +
+           lean_list([f'({lean_str(a)}, {lean_str(b)}, {"true" if c else "false"})' for a, b, c in rows])]
+    return out
+
+
+SECTIONS = [extract_models, extract_pool, extract_timeouts, extract_schemes, extract_exception_maps, extract_h2, extract_unasync, extract_h1_reuse, extract_pool_locking]
 
 
 def generate(repo):
